@@ -445,13 +445,15 @@ impl StrExt for str {
     fn wildcards_to_regex(&self) -> String {
         // Simplify pattern to avoid performance issues:
         // - The glob `?**?**?` is equivalent to the glob `???*`
-        // - The glob `???*` is equivalent to the regex `.{3,}`
+        // - The glob `???*` is equivalent to the regex `(?s:.){3,}`
+        //
+        // The `s` flag is needed for wildcards to match any character, including `\n`.
         let question_marks = self.matches('?').count();
 
         if self.contains('*') {
-            format!(".{{{question_marks},}}")
+            format!("(?s:.){{{question_marks},}}")
         } else {
-            format!(".{{{question_marks}}}")
+            format!("(?s:.){{{question_marks}}}")
         }
     }
 }
